@@ -177,6 +177,15 @@ pub fn xing_braid_closure(s: &mut Src) -> R {
     let comps = l.components();
     ob!(comps.len() == cycles, "Link::components==cycles-of-the-braid-permutation");
     ob!(comps.iter().all(|c| c.is_circle()), "Link::components-are-closed");
+    // Seifert's algorithm on a closed braid gives one circle per strand; mirroring negates every crossing sign
+    // (only when every component is oriented as in the braid: an over-only component may be oriented either way, see above)
+    if expect_writhe_known {
+        ob!(l.seifert_circles().len() == n, "Link::seifert_circles(closed-braid)==strands");
+        let lm = l.mirror();
+        ob!(lm.writhe() == -w && lm.crossing_num() == word.len() && lm.components().len() == cycles, "Link::mirror-negates-writhe");
+        let sm = lm.crossing_signs();
+        ob!(sm.len() == signs.len() && (0..signs.len()).all(|k| sm[k] != signs[k]), "Link::mirror-negates-crossing-signs");
+    }
     Ok(())
 }
 crate::harness_table!(XING: xing_pass, xing_arcs, xing_resolve, xing_mirror, xing_link_resolve, xing_braid_closure);
